@@ -149,6 +149,19 @@ class SymCtx:
             print(f"[slow query {dt:.1f}s -> {r}] extra={[str(e)[:300] for e in extra]} n_assert={len(self.pc) if self.fresh_solver else len(self.solver.assertions())}", file=sys.stderr)
         rs = str(r)
         self.nq[rs] += 1
+        if rs == "unknown":
+            # usually a timeout on a loaded machine: one retry on a fresh solver with four times the budget before giving up
+            t1 = time.time()
+            sv = z3.Solver()
+            sv.set("timeout", self.timeout_ms * 4)
+            sv.add(*(self.pc if self.fresh_solver else list(self.solver.assertions())))
+            sv.add(*extra)
+            r2 = guarded_check(sv, self.timeout_ms * 4)
+            self.solver_s += time.time() - t1
+            self.nq["retry_" + str(r2)] += 1
+            if r2 != z3.unknown:
+                rs = str(r2)
+                m = sv.model() if r2 == z3.sat else None
         return rs, m
 
     def add(self, e):
